@@ -23,6 +23,9 @@ func VerifHarness_C08_JPEG_Arbitrary() {
 // VerifHarness_C08_JPEG_Skeleton: well-formed skeletons (with symbolic fields).
 func VerifHarness_C08_JPEG_Skeleton() {
 	var in []byte
+	// optionally a 300-byte COM segment first: completing it takes far more than a hundred
+	// reads from a source that delivers 1-3 bytes per call
+	VerifBigAncillary = []int{0, 300}[verifChoice(2)]
 	if verifChoice(2) == 0 {
 		in, _ = VerifBuildJPEG(verifChoice(2))
 	} else { // with a two-chunk embedded profile, frame header first / between / last
